@@ -33,15 +33,20 @@ class TwinBuffer:
 
     # a fence lets harnesses assert "never reads past the declared end of an enclosing field"
     def __init__(self, capacity=0, data=None):
+        self._cells = {}  # concrete offset -> byte term, layered over self._base
         if data is not None:
             d = SymBytes.of(data)
             self._cap = d.length
-            self._get = d.get
+            self._base = d.get
+            items = d.materialize()
+            if items is not None:
+                self._cap = _len(items)
+                self._cells = dict(enumerate(items))
         else:
             if not _is_intlike(capacity):
                 raise TypeError("capacity must be an integer")
             self._cap = capacity
-            self._get = lambda i: z3.IntVal(0)
+            self._base = lambda i: z3.IntVal(0)
         self._pos = 0
         self.max_read = 0  # highest offset (exclusive) ever read; for fence assertions
 
@@ -50,9 +55,52 @@ class TwinBuffer:
     def capacity(self):
         return self._cap
 
+    def _get(self, i):
+        """byte term at offset i (z3 term or int)"""
+        if not _isinstance(i, _int):
+            i = z3.simplify(i)
+            if z3.is_int_value(i):
+                i = i.as_long()
+        if _isinstance(i, _int):
+            c = self._cells.get(i)
+            return c if c is not None else self._base(z3.IntVal(i))
+        if self._cells:
+            self._flush()
+        return self._base(i)
+
+    def _flush(self):
+        """fold the explicit cells into the content function (needed for symbolic offsets)"""
+        cells, base = self._cells, self._base
+        keys = sorted(cells)
+        self._cells = {}
+
+        def get(i):
+            r = base(i)
+            for k in keys:
+                r = z3.If(i == k, cells[k], r)
+            return r
+
+        self._base = get
+
+    def _view(self, start, length):
+        """bytes [start, start+length) as SymBytes"""
+        if _isinstance(start, SymInt):
+            v = z3.simplify(start.e)
+            start = v.as_long() if z3.is_int_value(v) else start
+        if _isinstance(length, SymInt):
+            v = z3.simplify(length.e)
+            length = v.as_long() if z3.is_int_value(v) else length
+        if _isinstance(start, _int) and _isinstance(length, _int) and length <= 4096:
+            return SymBytes.from_items([self._get(start + k) for k in range(length)])
+        if self._cells:
+            self._flush()
+        g = self._base
+        sz = _z(start)
+        return SymBytes(length, lambda i: g(i + sz))
+
     @property
     def data(self):
-        return SymBytes(self._pos, self._get)
+        return self._view(0, self._pos)
 
     # -- helpers ------------------------------------------------------------
     def _rd_err(self, msg="Read out of bounds"):
@@ -70,7 +118,8 @@ class TwinBuffer:
             raise self._wr_err()
 
     def _byte(self, k):
-        v = z3.simplify(self._get(_z(self._pos + k)))
+        p = self._pos + k
+        v = z3.simplify(self._get(p if _isinstance(p, _int) else p.e))
         if z3.is_int_value(v):
             return v.as_long()
         sx.E.add_fact(z3.And(v >= 0, v <= 255))
@@ -95,14 +144,25 @@ class TwinBuffer:
             else:
                 raise TypeError("an integer is required")
         self._need_write(n)
-        vz = _z(v) % (1 << (8 * n))  # PyArg 'B','H','I','K': no overflow checking
-        vals = [(vz / (1 << (8 * (n - 1 - k)))) % 256 for k in range(n)]
-        pz = _z(self._pos)
-        g = self._get
-        if n == 1:
-            self._get = lambda i: z3.If(i == pz, vals[0], g(i))
+        vals = sx.decompose(_z(v), n)  # the low n bytes: PyArg 'B','H','I','K' do no overflow checking
+        self._write(vals)
+
+    def _write(self, vals):
+        n = _len(vals)
+        pos = self._pos
+        if _isinstance(pos, SymInt):
+            pv = z3.simplify(pos.e)
+            pos = pv.as_long() if z3.is_int_value(pv) else pos
+        if _isinstance(pos, _int):
+            for k in range(n):
+                self._cells[pos + k] = vals[k]
         else:
-            self._get = lambda i: z3.If(z3.And(i >= pz, i < pz + n), sx._sel_chain(i - pz, vals), g(i))
+            if self._cells:
+                self._flush()
+            pz = _z(pos)
+            g = self._base
+            vv = list(vals)
+            self._base = lambda i: z3.If(z3.And(i >= pz, i < pz + n), sx._sel_chain(i - pz, vv), g(i))
         self._pos = self._pos + n
 
     # -- API ------------------------------------------------------------------
@@ -122,22 +182,13 @@ class TwinBuffer:
     def data_slice(self, start, stop):
         if start < 0 or start > self._cap or stop < 0 or stop > self._cap or stop < start:
             raise self._rd_err()
-        g = self._get
-        sz = _z(start)
-        return SymBytes(stop - start, lambda i: g(i + sz))
+        return self._view(start, stop - start)
 
     def pull_bytes(self, length):
         if not _is_intlike(length):
             raise TypeError("an integer is required")
         self._need_read(length)
-        g = self._get
-        pz = _z(self._pos)
-        n = length
-        if _isinstance(n, SymInt):
-            v = z3.simplify(n.e)
-            if z3.is_int_value(v):
-                n = v.as_long()
-        r = SymBytes(n, lambda i: g(i + pz))
+        r = self._view(self._pos, length)
         self._pos = self._pos + length
         return r
 
@@ -177,9 +228,15 @@ class TwinBuffer:
             raise TypeError("a bytes-like object is required")
         d = SymBytes.of(data)
         self._need_write(d.length)
-        g, gd = self._get, d.get
+        items = d.materialize()
+        if items is not None:
+            self._write(items)
+            return
+        if self._cells:
+            self._flush()
+        g, gd = self._base, d.get
         pz, lz = _z(self._pos), _z(d.length)
-        self._get = lambda i: z3.If(z3.And(i >= pz, i < pz + lz), gd(i - pz), g(i))
+        self._base = lambda i: z3.If(z3.And(i >= pz, i < pz + lz), gd(i - pz), g(i))
         self._pos = self._pos + d.length
 
     def push_uint8(self, v):
@@ -197,7 +254,11 @@ class TwinBuffer:
     def push_uint_var(self, v):
         if not _is_intlike(v):
             raise TypeError("an integer is required")
-        v64 = v % (1 << 64) if _isinstance(v, SymInt) else _int(v) % (1 << 64)  # 'K': masked, no overflow check
+        if _isinstance(v, SymInt):
+            # 'K': masked to 64 bits without overflow check; skip the reduction when it is provably the identity
+            v64 = v if sx.E.prove(z3.And(v.e >= 0, v.e < (1 << 64))) is None else v % (1 << 64)
+        else:
+            v64 = _int(v) % (1 << 64)
         if v64 <= 0x3F:
             self._push(v64, 1)
         elif v64 <= 0x3FFF:
